@@ -4,7 +4,7 @@ import os
 from .. import common as C
 
 ID = "C12"
-COQ_TARGETS = ["Tie/C12.vo", "Properties/C12.vo"]
+COQ_TARGETS = ["Tie/C12.vo", "Properties/C12.vo"]   # Properties/C12 requires Gen/Compare (regenerated)
 PROPERTY_FILE = "Properties/C12.v"
 TIE = "Tie.C12"
 DRIVER = "c12_driver.py"
@@ -13,7 +13,20 @@ THEOREMS = [
     "C12_lt_trichotomy", "C12_order_ops_consistent", "C12_reflected_agree", "C12_none_is_greatest",
     "C12_impl_eq_identity", "C12_incomparable_iff_key", "C12_sort_sorted", "C12_sort_deterministic",
     "C12_c_richcompare_eq_py", "C12_binop_c_eq_py",
+    "C12_generated_compare_eq_model", "C12_generated_methods_eq_model",
 ]
+
+
+def regenerate(run):
+    """Re-derive Gen/Compare.v from the current interface.py (fail closed)."""
+    from ..translate import compare
+    try:
+        text = compare.translate(os.path.join(C.REPO, "src", "zope", "interface", "interface.py"))
+    except compare.TranslationError as e:
+        return ["_compare / comparison methods no longer have the translatable shape: %s" % e]
+    C.write_if_changed(os.path.join(C.COQ, "Gen", "Compare.v"), text)
+    return []
+
 RULE = ("operand pairs drawn from a pool of interfaces / class specifications / None / foreign objects "
         "with names and modules that are empty, equal, prefix-related, non-ASCII and non-BMP; a case is "
         "non-trivial when at least one operand is an interface or class specification; distinct = "
